@@ -1,0 +1,9 @@
+//go:build !verif
+
+package dastard
+
+import "time"
+
+// verifReadPeriod is the identity in normal builds: the Lancero reader polls at the period the
+// code chose.  (With build tag `verif` the verification harness can shorten it, see verif_c04_on.go.)
+func verifReadPeriod(d time.Duration) time.Duration { return d }
